@@ -47,7 +47,7 @@ def run(ctx):
         ctx.cov["evaluations"] += 2
         ctx.cov["traces_validated_against_impl"] += 2
         feats |= langcheck.features(c)
-        if bad:
+        if bad and not ctx.enough():
             again = [x for x in vlib.run_harness(ctx, binary, cases=[{"seed": c["seed"], "prog": c["prog"]}]) if "seed" in x][0]
             bad2, _ = judge(again)
             if bad2:
